@@ -306,16 +306,25 @@ DenseSymmetricMatrixPair construct_lltsa_eigenproblem(SparseWeightMatrix W, Rand
 
     DenseVector rank_update_vector_i(dimension);
     DenseVector rank_update_vector_j(dimension);
-    DenseVector sum = DenseVector::Zero(dimension);
+    DenseVector mean = DenseVector::Zero(dimension);
 
     // RESTRICT_ALLOC;
     for (RandomAccessIterator iter = begin; iter != end; ++iter)
     {
         feature_vector_callback.vector(*iter, rank_update_vector_i);
-        sum += rank_update_vector_i;
+        mean += rank_update_vector_i;
+    }
+    mean /= (end - begin);
+
+    // both sides are built from the centered features: rhs is the scatter matrix and the
+    // nullspace shift on the diagonal of W only adds a multiple of rhs to lhs, so the
+    // eigenvectors do not depend on the origin of the feature space
+    for (RandomAccessIterator iter = begin; iter != end; ++iter)
+    {
+        feature_vector_callback.vector(*iter, rank_update_vector_i);
+        rank_update_vector_i -= mean;
         rhs.selfadjointView<Eigen::Upper>().rankUpdate(rank_update_vector_i);
     }
-    rhs.selfadjointView<Eigen::Upper>().rankUpdate(sum, -1. / (end - begin));
 
     for (int i = 0; i < W.outerSize(); ++i)
     {
@@ -323,11 +332,11 @@ DenseSymmetricMatrixPair construct_lltsa_eigenproblem(SparseWeightMatrix W, Rand
         {
             feature_vector_callback.vector(begin[it.row()], rank_update_vector_i);
             feature_vector_callback.vector(begin[it.col()], rank_update_vector_j);
+            rank_update_vector_i -= mean;
+            rank_update_vector_j -= mean;
             lhs.selfadjointView<Eigen::Upper>().rankUpdate(rank_update_vector_i, rank_update_vector_j, it.value());
         }
     }
-    // lhs is X W X^T as it stands: the rows and columns of the alignment matrix sum to zero,
-    // subtracting sum * sum^T / N here made the result depend on the origin of the feature space
 
     // UNRESTRICT_ALLOC;
 
